@@ -238,7 +238,10 @@ func (cb *CircuitBreaker) setState(state State) {
 	cb.state = state
 
 	if cb.onStateChange != nil {
-		cb.onStateChange(cb.name, prev, state)
+		// setState runs with cb.mutex held. Notify asynchronously so that a
+		// callback which calls back into the breaker (State, Counts) cannot
+		// self-deadlock on that mutex and hang request processing.
+		go cb.onStateChange(cb.name, prev, state)
 	}
 }
 
